@@ -9,6 +9,10 @@ open Proto Ex
       `i:f:<rel>:<mode>:<seed>:<len>`         pre-existing file with pattern content
       `i:s:<rel>:<target>`                    pre-existing symbolic link
       `i:h:<rel>:<rel of an existing file>`   pre-existing hard link
+      `v:<k>`                                 which exported function is called: (absent) ExtractWithMask; `x` Extract;
+                                              `a` ExtractArchive and `am` ExtractArchiveWithMask on the archive written
+                                              to a file; `missing` / `cut` = ExtractArchive(WithMask: mask word non-zero
+                                              selects it) on a path that does not exist / a file cut to 100 bytes
       `w:<n>`                                 write fault: during the extraction no file can grow beyond n bytes (the
                                               write of a longer payload stops after n bytes with an error)
       `e:<k>:<name>:<mode>:<seed>:<len>:<present>:<link>`   archive entry;
@@ -123,6 +127,9 @@ def step (_ : Unit) (line : String) : Unit × String :=
       | none => "bad-op"
       | some mk =>
         let zip := fmt == "zip"
+        let via := (items.filter (·.startsWith "v:")).getLast?.getD "v:"
+        let items := items.filter (fun w => !w.startsWith "v:")
+        if !["v:", "v:x", "v:a", "v:am", "v:missing", "v:cut"].contains via then "bad-op" else
         let rec go (fs : FS) (es : List Entry) (lim : Option Nat) : List String → Option (FS × List Entry × Option Nat)
           | [] => some (fs, es.reverse, lim)
           | w :: ws =>
@@ -139,7 +146,22 @@ def step (_ : Unit) (line : String) : Unit × String :=
             | none => es
             | some k => es.map fun e =>
                 if e.kind == .reg && e.data.length > k then { e with data := e.data.take k, short := true } else e
-          let r := if zip then zipExtract fs dstRoot mk es else tarExtract fs dstRoot mk es
+          -- a tar file cut inside its first header opens, then the reader rejects the header; a cut zip file has no
+          -- central directory and does not open
+          let es := if via == "v:cut" && !zip then [{ kind := .corrupt, name := [] }] else es
+          let opened := !(via == "v:missing" || (via == "v:cut" && zip))
+          let r :=
+            match via, zip with
+            | "v:x", false => tarExtractDefault fs dstRoot es
+            | "v:x", true => zipExtractDefault fs dstRoot es
+            | "v:a", false => tarExtractArchive true fs dstRoot es
+            | "v:a", true => zipExtractArchive true fs dstRoot es
+            | "v:am", false => tarExtractArchiveWithMask true fs dstRoot mk es
+            | "v:am", true => zipExtractArchiveWithMask true fs dstRoot mk es
+            | "v:", false => tarExtract fs dstRoot mk es
+            | "v:", true => zipExtract fs dstRoot mk es
+            | _, false => if mk == 0 then tarExtractArchive opened fs dstRoot es else tarExtractArchiveWithMask opened fs dstRoot mk es
+            | _, true => if mk == 0 then zipExtractArchive opened fs dstRoot es else zipExtractArchiveWithMask opened fs dstRoot mk es
           (if r.2 then "ok" else "err") ++ (let d := dump r.1; if d.isEmpty then "" else " " ++ d)
     | _ => "bad-op"
   ((), out)
